@@ -37,7 +37,8 @@ RULE = ("structured generator: 2-8 users x 2-8 items (pre-declared; some without
         "(exactly tied similarities) and constant rows (zero norm after centring); explicit or implicit feedback; k in 1..4, min_nbrs in 1..3 "
         "(also > k), dyadic and non-dyadic thresholds (some equal to an attained cosine), save_nbrs none/1..3, two block sizes per case; item-kNN "
         "queries: a training user's row, custom histories with unknown items, empty history; user-kNN queries: known id, known id + history, "
-        "unknown id + history, unknown id alone; targets include unknown items; call sequences: the same query object (history "
+        "unknown id + history, unknown id alone; 1 history in 6 is unusable (empty, only unknown items, one constant rating: zero query vector -- "
+        "a scorer that returns before any neighbour search is then judged by the definition, nothing scored); targets include unknown items; call sequences: the same query object (history "
         "held as writable float32 / float64 NumPy arrays, Python lists or Arrow-backed) scored again with other candidate lists, every call checked "
         "and the history compared with what the caller supplied; in 2 of 5 cases both scorers first undergo a re-training (retrain=True, other "
         "vocabularies) that raises at a generated point (unreadable interaction data, first/second normalisation, DataWarning escalated on constant "
@@ -119,6 +120,19 @@ def gen_case(rng, edge=False):
             ids += [f"x{j}" for j in rng.subset(range(2), 1, 3)]
         return [[x, fjson(Fraction(rng.randint(1, 10), 2))] for x in rng.shuffle(ids)]
 
+    def unusable(hist):
+        """now and then a history nothing can be computed from: empty, only items the model does not know, or (explicit
+        feedback: zero vector after centring) one and the same rating everywhere"""
+        if hist is None or not rng.chance(1, 6):
+            return hist
+        how = rng.choice(["empty", "only-unknown", "constant"])
+        if how == "empty":
+            return []
+        if how == "only-unknown":
+            return [[f"x{j}", fjson(Fraction(rng.randint(1, 10), 2))] for j in range(rng.randint(1, 2))]
+        c = fjson(Fraction(rng.randint(1, 10), 2))
+        return [[x, c] for x, _ in hist]
+
     def rand_items():
         its = rng.sample(list(range(ni)), rng.randint(1, ni)) + [f"x{j}" for j in rng.subset(range(2), 1, 3)]
         return rng.shuffle(its)
@@ -133,7 +147,7 @@ def gen_case(rng, edge=False):
             hist = rand_hist()
         else:
             hist = []
-        iq.append({"hist": hist, "items": rand_items(), "hist_kind": rng.choice(HIST_KINDS), "same_as": None})
+        iq.append({"hist": unusable(hist), "items": rand_items(), "hist_kind": rng.choice(HIST_KINDS), "same_as": None})
     uq = []
     for _ in range(rng.randint(2, 4)):
         kind = rng.weighted([("id", 4), ("id+hist", 2), ("id+own", 2), ("unknown+hist", 2), ("unknown", 1)])
@@ -143,7 +157,7 @@ def gen_case(rng, edge=False):
             hist = rand_hist()
         if kind == "id+own":
             hist = [[i, fjson(cells[(user, i)])] for i in range(ni) if (user, i) in cells]
-        uq.append({"user": user, "hist": hist, "items": rand_items(), "hist_kind": rng.choice(HIST_KINDS), "same_as": None})
+        uq.append({"user": user, "hist": unusable(hist), "items": rand_items(), "hist_kind": rng.choice(HIST_KINDS), "same_as": None})
     # call sequences: the SAME query object scored again, with another candidate list
     for qs in (iq, uq):
         for j in range(len(qs)):
@@ -553,6 +567,34 @@ def user_mean(case, obs, q):
     return fparse(obs["user_means"][q["user"]])
 
 
+def exact_qvec(case, q):
+    """the (un-normalised) query vector of the definition, exact: the supplied history centred by its own mean (explicit) or its
+    indicator (implicit), restricted to known items; without a history the training row of the known user, centred by its mean;
+    None for a query without any user data"""
+    ni = case["ni"]
+    explicit = case["feedback"] == "explicit"
+    if q["hist"] is not None:
+        known = {x: fparse(r) for x, r in q["hist"] if not isinstance(x, str)}
+        rs = [fparse(r) for _, r in q["hist"]]
+    elif q["user"] == "unknown":
+        return None
+    else:
+        known = {i: fparse(r) for u, i, r in case["ratings"] if u == q["user"]}
+        rs = list(known.values())
+    if not explicit:
+        return [Fraction(1) if i in known else Fraction(0) for i in range(ni)]
+    mean = sum(rs) / len(rs) if rs else Fraction(0)
+    return [(known[i] - mean) if i in known else Fraction(0) for i in range(ni)]
+
+
+def nothing_to_search_with(case, q):
+    """no user data at all, or a query vector that is zero (empty history, no known item, every rating equal to the mean): the cosine
+    with every training user is 0 < min_sim, so by the definition no neighbour exists and nothing can be scored -- a scorer may
+    legitimately return before computing any similarity"""
+    vec = exact_qvec(case, q)
+    return vec is None or not any(vec)
+
+
 # ---------------------------------------------------------------------------------------------
 # model side
 # ---------------------------------------------------------------------------------------------
@@ -631,9 +673,16 @@ def coq_term(case, obs):
         umean = user_mean(case, obs, q)
         no_data = q["hist"] is None and q["user"] == "unknown"
         if qo["sims"] is None:
-            # the scorer returned before looking for neighbours: only legitimate without user data
-            if not no_data or any(s is not None for s in qo["scores"]):
+            # the scorer returned before computing neighbour similarities: legitimate when there is nothing to search with (no user
+            # data, or a zero query vector); judged by the definition -- the similarities of a zero vector are all 0, and the model
+            # evaluated on them must agree that every candidate stays unscored
+            if not nothing_to_search_with(case, q) or any(s is not None for s in qo["scores"]):
                 return "false"
+            if not no_data:
+                self0 = "None" if q["user"] == "unknown" else f"(Some {cnat(q['user'])})"
+                zeros = clist([Fraction(0)] * nu, cq)
+                for t in q["items"]:
+                    parts.append(f"user_score_ok_b (fun o q => close {TOL} o q) um {self0} {zeros} {cq(umean)} {c_ref(t)} [] None")
             continue
         if no_data:
             return "false"
@@ -790,19 +839,43 @@ def oracle(case, obs):
             out.append(("user-score-alignment", "returned item ids differ from the requested ones"))
             continue
         no_data = q["hist"] is None and q["user"] == "unknown"
-        if qo["sims"] is None:
-            if not no_data:
-                out.append(("user-no-neighbour-search", "the scorer returned without computing neighbour similarities"))
-            elif any(s is not None for s in qo["scores"]):
+        if no_data:
+            if any(s is not None for s in qo["scores"]):
                 out.append(("user-score-unknown", "a query without user data got scores"))
-            continue
+            if qo["sims"] is None:
+                continue
         umean = user_mean(case, obs, q)
-        if q["hist"] is None:
+        if no_data:
+            qvec = [0.0] * ni
+        elif q["hist"] is None:
             qvec = uvecs[q["user"]]
         else:
             known = {x: float(fparse(r)) for x, r in q["hist"] if not isinstance(x, str)}
             qvec = [((known[i] - float(umean)) if explicit else 1.0) if i in known else 0.0 for i in range(ni)]
         how = "stored" if q["hist"] is None else "history"
+        if qo["sims"] is None:
+            # the scorer returned without a neighbour search (legitimate e.g. for a history it cannot use): judged by the definition
+            # from the data alone -- cosines of the rating vectors, band around the threshold
+            cosv = [0.0 if u == q["user"] else _cos(uvecs[u], qvec) for u in range(nu)]
+            rated_by = {}
+            for u, i, _ in case["ratings"]:
+                rated_by.setdefault(i, []).append(u)
+            for t, sc in zip(q["items"], qo["scores"]):
+                if isinstance(t, str):
+                    if sc is not None:
+                        out.append(("user-score-unknown", f"unknown target {t} got a score"))
+                    continue
+                sure = [u for u in rated_by.get(t, []) if cosv[u] >= min_sim * (1 + 2 * EPS)]
+                maybe = [u for u in rated_by.get(t, []) if cosv[u] >= min_sim * (1 - 2 * EPS) and cosv[u] > 0]
+                if sc is None:
+                    if len(sure) >= case["min_nbrs"]:
+                        out.append(("user-unscored", f"target {t} has {len(sure)} >= min_nbrs raters whose cosine with the query reaches the threshold, "
+                                                     "but the scorer returned without looking for neighbours"))
+                elif len(maybe) < case["min_nbrs"]:
+                    out.append(("user-too-few", f"target {t} has {len(maybe)} qualifying raters < min_nbrs={case['min_nbrs']} but was scored"))
+                else:
+                    out.append(("user-no-neighbour-search", f"target {t} was scored but the neighbour similarities the scorer used could not be observed"))
+            continue
         for u in range(nu):
             c = _cos(uvecs[u], qvec)
             if abs(float(fparse(qo["sims"][u])) - c) > 5 * EPS:
@@ -856,6 +929,15 @@ def counters(case, obs):
     for q in case["item_queries"] + case["user_queries"]:
         if q["hist"] is not None:
             yield ("repeat-call[" if q.get("same_as") is not None else "first-call[") + q.get("hist_kind", "f32") + "]"
+    for which, qs in (("item", case["item_queries"]), ("user", case["user_queries"])):
+        for q in qs:
+            if q["hist"] is not None and q.get("same_as") is None:
+                if not q["hist"]:
+                    yield which + "-history=empty"
+                elif all(isinstance(x, str) for x, _ in q["hist"]):
+                    yield which + "-history=only-unknown-items"
+                elif case["feedback"] == "explicit" and len({r for _, r in q["hist"]}) == 1:
+                    yield which + "-history=constant"
     yield "feedback=" + case["feedback"]
     yield f"k={case['k']}"
     yield f"min_nbrs={case['min_nbrs']}" + (">k" if case["min_nbrs"] > case["k"] else "")
@@ -884,7 +966,7 @@ def counters(case, obs):
     for q, qo in zip(case["user_queries"], obs["user_queries"]):
         yield "user-query=" + ("unknown" if q["user"] == "unknown" else "id") + ("+hist" if q["hist"] is not None else "")
         if qo["sims"] is None:
-            yield "user-branch=no-data"
+            yield "user-branch=" + ("no-data" if q["hist"] is None and q["user"] == "unknown" else "early-return[no usable history]")
             continue
         for t, sc in zip(q["items"], qo["scores"]):
             if isinstance(t, str):
